@@ -27,6 +27,12 @@ CHECKS = {
  "C10": ("exploration", "runtime monitoring: differential execution of a crash catalogue (regular vs -tiny) over GOTRACEBACK settings and goroutine contexts",
   "A crash-catalogue program (31 crash kinds x main/goroutine/deferred/init contexts x GOTRACEBACK settings, recover paths, position queries) is run as a regular and as a -tiny build: tiny stderr must equal the program's own OWN:-prefixed lines, stdout and exit status must be equal, recovered values unchanged, own-frame positions blank with line 1.",
   "GOTRACEBACK=crash excluded; runtime-internal frames keep their positions because the runtime is never obfuscated."),
+ "C12": ("exploration", "runtime monitoring: name maps extracted from the garbled sources actually compiled (hook) compared across build pairs that differ in one input",
+  "One composed program (with two packages of identical declarations) is built under 10 (quick) to 16 (thorough) single-input variations; the name of every package-level object, method, field and interface method in the compiled program is extracted by a lock-step walk of original and garbled sources and compared pairwise: equal where -seed must fix it, different (>=99%) where an input must change it, different between packages, equal for identical struct shapes.",
+  "Go-version variation is not exercised (one toolchain family per run); GOOS/GOARCH, GOGARBLE, garble binary and cold cache variations are thorough-only."),
+ "C13": ("exploration", "runtime monitoring: cross-checking garble map output, the names in the compiled garbled sources (hook) and garble reverse output",
+  "For composed programs under several flag sets, every obfuscated API-reachable object's name in the compiled garbled sources (name-map oracle, objectpaths computed independently with x/tools) must equal the `garble map` entry, must be listed, import paths must agree, and each listed name piped through `garble reverse` must come back as the original.",
+  "Objects without objectpath are outside garble map by definition; GOGARBLE-subset configs are covered by C14."),
  "C14": ("exploration", "runtime monitoring: differential execution + byte-level binary scan per GOGARBLE pattern list; exit-status/stderr observation for rejected lists",
   "A 5-package module whose packages use each other's structs and functions in both directions is built under exact, glob, prefix, std-mixed, all and nothing-matching GOGARBLE lists (quick 10, thorough all 31 subsets + extras): output must equal the regular build, markers and planted literals of matched packages must be absent, those of unmatched packages present, runtime names present, and a list matching nothing must be rejected without output.",
   "Presence is only required for markers the regular stripped binary contains; cross-partition struct identity is a listed known finding with a dedicated witness."),
